@@ -1073,7 +1073,6 @@ func discoveryOnlyPredicate(fn *ssa.Function, reg *Registry) bool {
 	return true
 }
 
-
 // discoveryOnlyByContainsFunc: the other spelling of the predicate, `... && !slices.ContainsFunc(items, isOther)` with
 // isOther(item) = item.Operation != DiscoverVersions: every value the function can return is false or the negation of
 // that call.
@@ -1161,7 +1160,6 @@ func discoveryOnlyByContainsFunc(fn *ssa.Function, disc int64) bool {
 	}
 	return true
 }
-
 
 // lenPositive: cond/outcome (or the value itself when used as the returned boolean) states len(x) > 0 for a slice of
 // request batch items.
